@@ -131,9 +131,16 @@ def build_register(r: dict):
     raise ValueError(r["kind"])
 
 
+SHARED_MAPS: dict = {}  # "share" key -> the one DetuningMap object handed to several sequences (cleared by the case)
+
+
 def build_detuning_map(m: dict, register=None):
     from pulser.register.weight_maps import DetuningMap
 
+    if m.get("share") is not None:
+        if m["share"] not in SHARED_MAPS:
+            SHARED_MAPS[m["share"]] = DetuningMap(np.array(m["traps"], dtype=float), list(m["weights"]))
+        return SHARED_MAPS[m["share"]]
     if m.get("by") == "qubits":
         return register.define_detuning_map({q: w for q, w in zip(m["ids"], m["weights"])})
     return DetuningMap(np.array(m["traps"], dtype=float), list(m["weights"]))
@@ -192,8 +199,12 @@ def ev(x: Any, env: Env) -> Any:
     if k == "var":
         if env.mode == "param":
             v = env.variables[x["name"]]
+            if x.get("sl") is not None:
+                return v[slice(*x["sl"])]
             return v[x["i"]] if x.get("i") is not None else v
         val = np.asarray(env.values[x["name"]])
+        if x.get("sl") is not None:
+            return val.reshape(-1)[slice(*x["sl"])]
         return val.reshape(-1)[x["i"]].item() if x.get("i") is not None else val
     if k == "lit":
         return x["v"]
@@ -215,6 +226,25 @@ def ref_eval(x: Any, values: dict) -> Any:
     k = x["e"]
     if k == "var":
         v = values[x["name"]]
+        if x.get("sl") is not None:
+            a, b, c = x["sl"]
+            seq = list(v) if isinstance(v, (list, tuple, np.ndarray)) else [v]
+            n = len(seq)
+            c = 1 if c is None else c
+            if c > 0:
+                idx, stop = (0 if a is None else a + n if a < 0 else a), (n if b is None else b + n if b < 0 else b)
+                out = []
+                while idx < min(stop, n):
+                    out.append(seq[idx])
+                    idx += c
+                return out
+            idx, stop = (n - 1 if a is None else a + n if a < 0 else a), (-1 if b is None else b + n if b < 0 else b)
+            out = []
+            while idx > stop:
+                if idx < n:
+                    out.append(seq[idx])
+                idx += c
+            return out
         if x.get("i") is not None:
             return (list(v) if isinstance(v, (list, tuple, np.ndarray)) else [v])[x["i"]]
         return v
